@@ -122,12 +122,14 @@ func (round *round4) Start() *tss.Error {
 			return round.WrapError(errors.New("dln proof verification failed"), culprit)
 		}
 	}
-	// save NTilde_j, h1_j, h2_j received in NewCommitteeStep1 here
+	// save NTilde_j, h1_j, h2_j and the Paillier key received in NewCommitteeStep1 here: these are the values the proofs
+	// above were verified for (the message store can be overwritten by a later copy of the message)
 	for j, msg := range round.temp.dgRound2Message1s {
 		if j == i {
 			continue
 		}
 		r2msg1 := msg.Content().(*DGRound2Message1)
+		round.save.PaillierPKs[j] = r2msg1.UnmarshalPaillierPK()
 		round.save.NTildej[j] = new(big.Int).SetBytes(r2msg1.NTilde)
 		round.save.H1j[j] = new(big.Int).SetBytes(r2msg1.H1)
 		round.save.H2j[j] = new(big.Int).SetBytes(r2msg1.H2)
